@@ -289,7 +289,7 @@ fn impl_answer(src: &str) -> String {
     }
 }
 
-struct Job { src: String, tree: Option<E>, kind: &'static str, eval: bool }
+struct Job { src: String, tree: Option<E>, kind: &'static str, eval: bool, minimal: bool }
 
 fn main() {
     let mut ctx = Ctx::from_env("C31");
@@ -300,26 +300,26 @@ fn main() {
     // regression corpus first: the recorded D11 shapes and a few hand-picked groupings
     for src in ["-2 % 3", "-x % 3", "-2 ^ 2", "-x ^ 2", "- 2 * 3 + 1", "a - b - c", "a ^ b ^ c", "not a == b",
                 "a .. b == c .. d", "a < b == c < d", "a + b * c % d ^ e", "- a . f ( 1 ) [ 2 ] ! ?", "( a , b ) . x"] {
-        jobs.push(Job { src: src.into(), tree: None, kind: "corpus", eval: false });
+        jobs.push(Job { src: src.into(), tree: None, kind: "corpus", eval: false, minimal: false });
     }
-    jobs.push(Job { src: "- 2 % 3".into(), tree: Some(E::Neg(Box::new(E::Bin(Op::Mod, Box::new(E::Atom(Atom::Int(2))), Box::new(E::Atom(Atom::Int(3))))))), kind: "typed", eval: true });
-    jobs.push(Job { src: "- 2 ^ 2".into(), tree: Some(E::Neg(Box::new(E::Bin(Op::Pow, Box::new(E::Atom(Atom::Int(2))), Box::new(E::Atom(Atom::Int(2))))))), kind: "typed", eval: true });
+    jobs.push(Job { src: "- 2 % 3".into(), tree: Some(E::Neg(Box::new(E::Bin(Op::Mod, Box::new(E::Atom(Atom::Int(2))), Box::new(E::Atom(Atom::Int(3))))))), kind: "typed", eval: true, minimal: true });
+    jobs.push(Job { src: "- 2 ^ 2".into(), tree: Some(E::Neg(Box::new(E::Bin(Op::Pow, Box::new(E::Atom(Atom::Int(2))), Box::new(E::Atom(Atom::Int(2))))))), kind: "typed", eval: true, minimal: true });
 
     for i in 0..n_typed {
         let depth = 1 + (i % max_depth);
         let ty = any_ty(&mut ctx.rng);
         let t = gen_typed(&mut ctx.rng, ty, depth);
         let (src, _) = print_minimal(&t);
-        jobs.push(Job { src, tree: Some(t), kind: "typed", eval: true });
+        jobs.push(Job { src, tree: Some(t), kind: "typed", eval: true, minimal: true });
     }
     for i in 0..n_untyped {
         let depth = 1 + (i % max_depth);
         let t = gen_untyped(&mut ctx.rng, depth);
         let src = if i % 3 == 2 { print_redundant(&t, &mut ctx.rng) } else { print_minimal(&t).0 };
-        jobs.push(Job { src, tree: Some(t), kind: if i % 3 == 2 { "redundant" } else { "untyped" }, eval: false });
+        jobs.push(Job { src, tree: Some(t), kind: if i % 3 == 2 { "redundant" } else { "untyped" }, eval: false, minimal: i % 3 != 2 });
     }
     for _ in 0..n_soup {
-        jobs.push(Job { src: gen_soup(&mut ctx.rng), tree: None, kind: "soup", eval: false });
+        jobs.push(Job { src: gen_soup(&mut ctx.rng), tree: None, kind: "soup", eval: false, minimal: false });
     }
 
     let decls = prelude_decls();
@@ -340,6 +340,12 @@ fn main() {
             ctx.count("skipped:lexer-diagnostic");
         }
         if let Some(t) = &j.tree {
+            if j.minimal && lex_errs == 0 {
+                // the harness's printer is the `printMinimal` the theorems are about
+                let mut pw = vec![];
+                t.prefix_words(&mut pw);
+                ctx.case(format!("prattprint {} #printer", pw.join(" ")), words.join(" "));
+            }
             ctx.count(&format!("depth:{}", t.depth()));
             match t { E::Bin(o, _, _) => ctx.count(&format!("top:{}", o.name())), E::Neg(_) => ctx.count("top:neg"),
                       E::Not(_) => ctx.count("top:not"), E::Atom(_) => ctx.count("top:atom"), _ => ctx.count("top:postfix/primary") }
